@@ -493,6 +493,29 @@ func (ex *Exec) loopEnv(st *State, hdr *ssa.BasicBlock, phi map[*ssa.Phi]string,
 		}
 		return Val{}, false
 	}
+	// #visitedN / #indexN: visited set / hidden range index of loop N (N as in `loop N invariant`), usable in
+	// the invariants of loop N itself and of every loop nested inside it.
+	for _, l := range ex.loops {
+		if l != li && !l.body[hdr] {
+			continue
+		}
+		if v, ok := visitedOf(l.header); ok {
+			vars[fmt.Sprintf("#visited%d", l.ord)] = v
+		}
+		for _, in := range l.header.Instrs {
+			p, ok := in.(*ssa.Phi)
+			if !ok {
+				break
+			}
+			if p.Comment == "rangeindex" {
+				if o, ok := phi[p]; ok && l == li {
+					vars[fmt.Sprintf("#index%d", l.ord)] = Val{o, GType{T: p.Type()}}
+				} else if v, ok := ex.vals[p]; ok {
+					vars[fmt.Sprintf("#index%d", l.ord)] = Val{v, GType{T: p.Type()}}
+				}
+			}
+		}
+	}
 	own, hasOwn := visitedOf(hdr)
 	if hasOwn {
 		vars["#visited"] = own
